@@ -132,7 +132,10 @@ CHECKS = {
         "lower-left + size, instance rotation, annotations, abstracts) with the ordering obligation ExportOrderOK = ValidOrder of "
         "DepOrderProps; TLC checks the model's own export order against it and emits library + message for every generated "
         "library. The crate's to_proto must produce that message (cells in any dependencies-first order, validated by TLC), "
-        "from_proto(to_proto(lib)) must equal lib, and the specification's message must survive proto->raw->proto.",
+        "from_proto(to_proto(lib)) must equal lib, and the specification's message must survive proto->raw->proto. "
+        "Layers.tla models the layer registry behind 'layer/purpose numbers' as a state machine (Add with purposes, get_or_insert, "
+        "keynum/keyname/nextnum; invariants KeysValid, LatestWins, GoiIdempotent); every sequence of 3-4 operations is replayed "
+        "into raw::Layers with all answers compared after every operation.",
    note="Trusted: TLC, raw and proto constructor/projection glue. Abstract port shapes / blockages compare as sets by layer "
         "(their order is C20's subject). Proto->raw uses the layer table that gives purpose numbers their meaning.",
    tech="TLA+ field-relation spec + TLC case enumeration; S->I replay in three directions; I->S order validation"),
